@@ -248,6 +248,29 @@ def rust_part(g):
             exprs.append("<untranslatable %s>" % exn)
     g.str_list("rust_rebalance_can_donate_tests", exprs, "the inlined sibling can-donate tests in rebalance_child, translated")
 
+    # repaired-defect guards (D1-D4): the model's `Cfg.repaired` switches, regenerated from the code
+    rq = strip_comments(read("rust/src/range_queries.rs"))
+    b = rust_fn(rq, "resolve_range_bounds") or ""
+    m1 = re.search(r"Bound::Excluded\(key\)\s*=>\s*(.*?)Bound::Unbounded", b, flags=re.S)
+    arm = m1.group(1) if m1 else ""
+    skip_only_matched = ("find_leaf_for_key_with_match" in arm) and re.search(r",\s*matched\)", arm) is not None and not re.search(r",\s*true\)", arm)
+    g.lines.append("/-- D1: `range()` skips the first item only when the excluded start key was matched -/\ndef rust_range_skip_only_matched : Bool := %s" % ("true" if skip_only_matched else "false"))
+    it = strip_comments(read("rust/src/iteration.rs"))
+    b = rust_fn(it, "try_get_next_item") or ""
+    m2 = re.search(r"if let Some\(end_key\) = self\.end_key\s*\{(.*?)\}\s*else if", b, flags=re.S)
+    arm = m2.group(1) if m2 else ""
+    honours = re.search(r"if\s+self\.end_inclusive\s*\{\s*key\s*>\s*end_key\s*\}\s*else\s*\{\s*key\s*>=\s*end_key", arm) is not None
+    g.lines.append("/-- D2: the borrowed end key honours `end_inclusive` -/\ndef rust_end_key_honours_inclusive : Bool := %s" % ("true" if honours else "false"))
+    m3 = re.search(r"if\s+(.*?)\{\s*return None;", b, flags=re.S)
+    guard = re.sub(r"\s+", " ", m3.group(1)) if m3 else ""
+    guard_both = ("leaf.keys_len()" in guard) and ("leaf.values_len()" in guard) and ("||" in guard)
+    g.lines.append("/-- D4: the unchecked key/value read in `try_get_next_item` is guarded by both lengths : `%s` -/\ndef rust_iter_guard_both : Bool := %s" % (guard.replace("-/", "- /"), "true" if guard_both else "false"))
+    va = strip_comments(read("rust/src/validation.rs"))
+    b = rust_fn(va, "check_node_invariants") or ""
+    occ = re.findall(r"if\s+([^{]*?is_underfull\(\))\s*\{", b)
+    checks_empty = len(occ) == 2 and all("is_empty" not in o for o in occ)
+    g.lines.append("/-- D3: the occupancy test of `check_node_invariants` is not skipped for empty nodes : %s -/\ndef rust_validator_checks_empty : Bool := %s" % (str([re.sub(r"\s+", " ", o) for o in occ]).replace("-/", "- /"), "true" if checks_empty else "false"))
+
     # inventories over the library sources (bins, benches, tests excluded)
     lib_files = sorted(f for f in os.listdir(os.path.join(REPO, "rust/src")) if f.endswith(".rs"))
     unsafe_sites, unchecked_calls, interior, manual = [], [], [], []
@@ -272,6 +295,8 @@ def rust_part(g):
             manual.append("%s: %s: %s" % (f, fn_at(fns, m.start()), m.group(1)))
     g.str_list("rust_unsafe_sites", unsafe_sites, "every `unsafe` token in rust/src (non-test code)")
     g.str_list("rust_unchecked_calls", unchecked_calls, "every call of a *_unchecked accessor in rust/src (non-test code), with its enclosing fn")
+    g.str_list("rust_leaf_unchecked_followers", [c for c in unchecked_calls if c.startswith("iteration.rs") and "get_leaf_unchecked" in c],
+               "D4: places in iteration.rs that follow a leaf id through get_leaf_unchecked")
     g.str_list("rust_interior_mutability", interior, "interior mutability / shared mutable state in rust/src")
     g.str_list("rust_manual_ownership", manual, "manual ownership primitives in rust/src")
 
